@@ -60,10 +60,15 @@ def make_session(rng, nmin, nmax, tmax, neg=False, with_empty=True, nbase=3):
     return S
 
 
-def observe(session, fn, emb, nproc, sigma_t=None, M=None, hashseeds=(0,)):
+def observe(session, fn, emb, nproc, sigma_t=None, M=None, hashseeds=(0,), container=None):
     jobs = []
     n = len(session)
     sf = None if sigma_t is None else float(emb.s) ** 2 * sigma_t
+    if container:   # one job: the whole session on shared argument objects
+        D = [[[emb.f(b), emb.f(d)] for b, d in dg] for dg in session]
+        if container in ("int", "intlist") and not all(float(v).is_integer() and abs(v) < 2 ** 52 for dg in D for p in dg for v in p):
+            container = "array"
+        return [dict(fn="session", dist=FNMAP[fn], D=D, container=container, M=M, sigma=sf, _n=n * n)]
     for i in range(n):
         for j in range(n):
             jb = dict(fn=FNMAP[fn], S=[[emb.f(b), emb.f(d)] for b, d in session[i]], T=[[emb.f(b), emb.f(d)] for b, d in session[j]], matching=False)
@@ -102,11 +107,21 @@ def run_sessions(ctx, specs, label, owner_clause=lambda cl: True, nproc=12):
         n = len(sp["session"])
         parts = {}
         for key, fn in [("V", sp["fn"])] + [(a, {"W": "wass", "BT": "bott"}[a]) for a in sp.get("aux", [])]:
-            jobs = observe(sp["session"], fn, sp["emb"], nproc, sp.get("sigma_t"), sp.get("M"))
+            jobs = observe(sp["session"], fn, sp["emb"], nproc, sp.get("sigma_t"), sp.get("M"), container=sp.get("container") if key == "V" else None)
             parts[key] = (len(alljobs), len(jobs))
             alljobs += jobs
         slices.append(parts)
     results, _ = run_driver_parallel("distances.py", alljobs, nproc=nproc, hashseeds=tuple(range(3)))
+    # expand whole-session jobs (shared argument objects) into their n*n results
+    mutated = {}
+    for sp, parts in zip(specs, slices):
+        lo, ln = parts["V"]
+        if sp.get("container") and ln == 1:
+            r = results[lo]
+            n2 = len(sp["session"]) ** 2
+            parts["Vx"] = r["dists"] if "dists" in r else [dict(r) for _ in range(n2)]
+            if r.get("mutated"):
+                mutated[id(sp)] = r["mutated"]
     cases = []
     for sp, parts in zip(specs, slices):
         e = sp["emb"]
@@ -114,7 +129,7 @@ def run_sessions(ctx, specs, label, owner_clause=lambda cl: True, nproc=12):
         s = e.s
         conv = (lambda v: v * s) if sp["fn"] == "heat" else (lambda v: v / s)
         lo, ln = parts["V"]
-        V, bad = to_matrix(results[lo:lo + ln], n, conv)
+        V, bad = to_matrix(parts["Vx"] if "Vx" in parts else results[lo:lo + ln], n, conv)
         c = dict(fn=sp["fn"], D=sp["session"], V=V, W=[], BT=[], sigma=fix(Fraction(sp["sigma_t"]) if sp.get("sigma_t") else 0), anchor=int(sp.get("anchor", 0)),
                  Mdirs=sp.get("M") or 1, zerotol=fix(Fraction(sp["zerotol"])))
         for a in sp.get("aux", []):
@@ -135,14 +150,18 @@ def run_sessions(ctx, specs, label, owner_clause=lambda cl: True, nproc=12):
                         "sigma_ticks": sp.get("sigma_t"), "laws": "finite, >=0, zero on reorderings, symmetry, triangle, diagonal points, diagonal translation, scaling, empty, comparison", "verdict": "ok"}, cap=4)
         else:
             info = {"clause": clause, "fn": sp["fn"], "indices": v[4:7]}
+            if sp.get("container"):
+                info["arguments"] = "one set of %s objects shared by all calls of the session" % sp["container"]
+                if id(sp) in mutated:
+                    info["arguments_modified_by_the_calls"] = mutated[id(sp)]
             if clause == "not-finite-or-NaN" and c["_bad"] is not None:
                 info["raised"] = c["_bad"].get("raised")
             ctx.failure(info, {"kind": "laws", "fn": sp["fn"], "session": sp["session"], "emb": sp["emb"].name, "sigma_t": sp.get("sigma_t"), "M": sp.get("M"),
-                               "anchor": sp.get("anchor", 0), "aux": sp.get("aux", []), "zerotol": str(sp["zerotol"])})
+                               "anchor": sp.get("anchor", 0), "aux": sp.get("aux", []), "zerotol": str(sp["zerotol"]), "container": sp.get("container")})
 
 
 def replay(ctx, rec):
     c = rec["case"]
     e = next(x for x in EXACT_EMBS + DEC_EMBS if x.name == c["emb"])
     run_sessions(ctx, [dict(session=c["session"], fn=c["fn"], emb=e, sigma_t=c.get("sigma_t"), M=c.get("M"), anchor=c.get("anchor", 0), aux=c.get("aux", []),
-                            zerotol=Fraction(c["zerotol"]))], "replay", nproc=1)
+                            zerotol=Fraction(c["zerotol"]), container=c.get("container"))], "replay", nproc=1)
